@@ -1,7 +1,7 @@
 """C11 — sequence slicing and exploding equal doing it to the list and to every cube."""
 import numpy as np
 from harness import coqio as Q
-from harness.impl import coded_cube, exc_name
+from harness.impl import seq_with_ca, coded_cube, exc_name
 
 CORR = "C11_corr"
 IMPORTS = ["M_Slicing", "M_IndexAsCube", "M_Sequence"]
@@ -195,7 +195,7 @@ def run(case):
     shapes, ca = [tuple(s) for s in case["shapes"]], case["ca"]
     cubes = [coded_cube(s, cid=k) for k, s in enumerate(shapes)]
     meta = {"seq": "meta"}
-    seq = NDCubeSequence(cubes, common_axis=ca, meta=meta)
+    seq = seq_with_ca(cubes, ca, case["key"], meta=meta)
     arrs = [c.data for c in cubes]
     why = []
     # reference
@@ -216,8 +216,17 @@ def run(case):
         exp_exc = exc_name(e)
     # implementation
     r, exc = seq, None
+    import zlib
+    look_first = zlib.crc32(case["key"].encode()) % 2 == 0
     try:
         for op in case["ops"]:
+            if look_first and isinstance(r, NDCubeSequence):
+                # ask the sequence about itself before deriving from it: the answers about the result must be the result's own
+                for probe in (lambda: r.shape, lambda: r.cube_like_shape, lambda: str(r), lambda: r.array_axis_physical_types):
+                    try:
+                        probe()
+                    except Exception:  # noqa
+                        pass
             r = _impl_step(r, op, case["key"])
     except Exception as e:  # noqa
         r, exc = None, exc_name(e)
@@ -262,8 +271,12 @@ def run(case):
                 why.append("sequence meta not kept")
             if r.data and not why:
                 sh = r.shape
-                if sh[0] != len(r.data) or len(sh) != 1 + r.data[0].data.ndim:
-                    why.append(f"shape {sh} does not describe the cubes held")
+                esh = [len(r.data)] + [int(x) for x in r.data[0].data.shape]
+                if rca is not None and len({c.data.shape[rca] for c in r.data}) > 1:
+                    esh[1 + rca] = tuple(int(c.data.shape[rca]) for c in r.data)      # ragged common axis: every length
+                got = [tuple(int(y) for y in x) if isinstance(x, (tuple, list, np.ndarray)) else int(x) for x in sh]
+                if got != esh:
+                    why.append(f"shape {sh} does not describe the cubes held ({esh})")
                 if cls is not None:
                     ecls = list(r.data[0].data.shape)
                     ecls[rca] = sum(c.data.shape[rca] for c in r.data)
